@@ -74,7 +74,7 @@ Section Refine.
   Let Hne : L <> [] := wf_plist_nonempty L Hwf.
   Let HSp : 0 < SA L := pow2_pos _ (SA_pow2 L HF Hne).
 
-  Lemma Hct : all_ctriv L = true.
+  Lemma Hct : all_ctriv true L = true.
   Proof. unfold all_triv in Htriv. apply andb_true_iff in Htriv. tauto. Qed.
   Lemma Hdt : all_dtriv L = true.
   Proof. unfold all_triv in Htriv. apply andb_true_iff in Htriv. tauto. Qed.
@@ -302,10 +302,15 @@ Section Refine.
   Qed.
 
   (* ---------------- reserve ---------------- *)
-  Lemma insert_into_triv mv destr v bid junk :
+  Lemma insert_into_triv_gen mv destr v bid junk : all_ctriv mv L = true ->
     insert_into mv destr L v bid junk =
       (v, mcopy (v_mem v) 0 junk 0 (dend L v), [ERaw bid 0 (dend L v)]).
-  Proof. unfold insert_into. rewrite Hct, Hdt, orb_true_r. reflexivity. Qed.
+  Proof. intros Hc. unfold insert_into. rewrite Hc, Hdt, orb_true_r. reflexivity. Qed.
+  (* the moving form (reserve, element-wise move assignment) *)
+  Lemma insert_into_triv destr v bid junk :
+    insert_into true destr L v bid junk =
+      (v, mcopy (v_mem v) 0 junk 0 (dend L v), [ERaw bid 0 (dend L v)]).
+  Proof. apply insert_into_triv_gen. exact Hct. Qed.
 
   Theorem reserve_rep v l n b junk bid tbid : Rep L v l ->
     Rep L (fst (reserve L v n b junk bid tbid)) l /\
@@ -538,7 +543,7 @@ Section Refine.
 
   (* ---------------- the public operations ---------------- *)
   Lemma move_forward_triv_eq v from to : move_forward L v from to = move_forward_triv L v from to.
-  Proof. unfold move_forward. now rewrite Hct, Hdt. Qed.
+  Proof. unfold move_forward. now rewrite Htriv. Qed.
 
   Theorem pop_back_rep v l : Rep L v l -> l <> [] -> Rep L (fst (pop_back L v)) (removelast l).
   Proof.
